@@ -9,7 +9,9 @@ from vt import cover  # noqa: E402
 
 EXTRA = ['\\begin{verbatim}a$\\end{verbatim}', '\\begin{itemize}\\item a\\item[b] c\\end{itemize}', '$a\\left(b\\right)$',
          '\\begin{equation}x\\end{equation}', '\\section[a]{b}\\label{c}', '\\newcommand{\\x}[1]{\\begin{y}}', 'a%b\nc',
-         '\\begin{a}[b]{c}d\\begin{e}f\\end{e}\\end{a}', '{a{b}c}\\\\[d]', '\\(a\\)\\[b\\]$$c$$']
+         '\\begin{a}[b]{c}d\\begin{e}f\\end{e}\\end{a}', '{a{b}c}\\\\[d]', '\\(a\\)\\[b\\]$$c$$',
+         '\\begin{a} x \\end{b}%', '\\begin{a}\\end{b}\\%y%', '\\def\\x{y}\\textbf\\alpha x', '\\foo[a}b] {c}{z}',
+         '\\section{A}\n\\label\n', '\\begin{e}x\\end\t{e}\n']
 
 
 def base_docs(tier, seed):
